@@ -224,12 +224,17 @@ func runC05(r *mc.Run) {
 			revAt := []time.Time{{}, world.T0, world.T0.Add(time.Second), world.T0.AddDate(0, 0, 14)}[c.Choose("entry.date", 4)]
 			// the CRLs spell their issuer's name in another encoding than the certificates do (UTF8String values)
 			utf8Issuer := c.Choose("crl.issuer-name-encoding", 2) == 1
+			// ... and name another authority key identifier than the certificates carry (a hint, not an identity)
+			var crlAKI []byte
+			if c.Choose("crl.authority-key-identifier", 2) == 1 {
+				crlAKI = world.Fill("c05-other-key-identifier", 20)
+			}
 			id := "crl/" + c.ID() + world.LogTag()
 			if !r.Want(id) {
 				return
 			}
-			pckCrl := world.MakeCRL(world.CRLSpec{Issuer: pckSigners[psg].issuer, Signer: pckSigners[psg].key, Revoked: pckSets[ps].list, Reason: reason, RevokedAt: revAt, EntryExts: entryExts, FirstEntryExts: firstExts, IssuerUTF8: utf8Issuer})
-			rootCrl := world.MakeCRL(world.CRLSpec{Issuer: rootSigners[rsg].issuer, Signer: rootSigners[rsg].key, Revoked: rootSets[rs].list, Reason: reason, RevokedAt: revAt, EntryExts: entryExts, FirstEntryExts: firstExts, IssuerUTF8: utf8Issuer})
+			pckCrl := world.MakeCRL(world.CRLSpec{Issuer: pckSigners[psg].issuer, Signer: pckSigners[psg].key, Revoked: pckSets[ps].list, Reason: reason, RevokedAt: revAt, EntryExts: entryExts, FirstEntryExts: firstExts, IssuerUTF8: utf8Issuer, AuthorityKeyID: crlAKI})
+			rootCrl := world.MakeCRL(world.CRLSpec{Issuer: rootSigners[rsg].issuer, Signer: rootSigners[rsg].key, Revoked: rootSets[rs].list, Reason: reason, RevokedAt: revAt, EntryExts: entryExts, FirstEntryExts: firstExts, IssuerUTF8: utf8Issuer, AuthorityKeyID: crlAKI})
 			fPck := world.MakeCRL(world.CRLSpec{Issuer: F.Inter, Signer: F.InterKey})
 			fRoot := world.MakeCRL(world.CRLSpec{Issuer: F.Root, Signer: F.RootKey})
 			serve := func(kind string, own, other, f []byte, hdr map[string][]string) world.Response {
